@@ -168,6 +168,22 @@ impl Machine {
             "uy" => {
                 self.hashers[idx(f[1])].update_rayon(&bytes(f[2]));
             }
+            // um / umy: the bytes go through a real file and update_mmap / update_mmap_rayon (mapped when >= 16 KiB,
+            // read fallback below); observable effect = update with the same bytes
+            "um" | "umy" => {
+                let data = bytes(f[2]);
+                let dir = std::env::var("VERIF_TMPDIR").unwrap_or_else(|_| "/verif/build".into());
+                let path = std::path::PathBuf::from(dir).join(format!(
+                    "mm-{}-{:?}-{}", std::process::id(), std::thread::current().id(), self.hashers.len()));
+                std::fs::write(&path, &data).expect("write temp file");
+                let r = if f[0] == "um" {
+                    self.hashers[idx(f[1])].update_mmap(&path).map(|_| ())
+                } else {
+                    self.hashers[idx(f[1])].update_mmap_rayon(&path).map(|_| ())
+                };
+                let _ = std::fs::remove_file(&path);
+                r.expect("update_mmap failed");
+            }
             "us" => {
                 // scripted join: script is a string of digits 0/1/2
                 let script: Vec<u8> = f[3].bytes().map(|c| c - b'0').collect();
@@ -204,6 +220,13 @@ impl Machine {
             "cl" => {
                 let h = self.hashers[idx(f[1])].clone();
                 self.hashers.push(h);
+            }
+            // clf:j:k  same observable effect as cl:j, but through Clone::clone_from into a USED destination
+            // (a copy of hasher k): whatever state the destination had must be gone
+            "clf" => {
+                let mut d = self.hashers[idx(f[2])].clone();
+                d.clone_from(&self.hashers[idx(f[1])]);
+                self.hashers.push(d);
             }
             "r" => {
                 self.hashers[idx(f[1])].reset();
@@ -278,6 +301,12 @@ impl Machine {
             "rc" => {
                 let r = self.readers[idx(f[1])].clone();
                 self.readers.push(r);
+            }
+            // rcf:j:k  as rc:j, through clone_from into a copy of reader k
+            "rcf" => {
+                let mut d = self.readers[idx(f[2])].clone();
+                d.clone_from(&self.readers[idx(f[1])]);
+                self.readers.push(d);
             }
             // ---- Debug / zeroize (C17) ----
             "dbg" => self.out.push(format!("{:?}", self.hashers[idx(f[1])]).replace(' ', "_")),
@@ -527,6 +556,35 @@ fn helper_case(f: &[&str], out: &mut Vec<String>) {
             None => out.push("none".into()),
             Some(v) => out.push(format!("{v}")),
         },
+        // dkre <material> <ctx> <ctx> ...: derive_key / new_derive_key called repeatedly with ONE reused String buffer
+        // (same address, often same length, different contents): every result must depend on the context VALUE only
+        "dkre" => {
+            let material = bytes(f[1]);
+            let mut buf = String::with_capacity(4096);
+            for spec in &f[2..] {
+                let ctx = String::from_utf8(bytes(spec)).expect("dkre context must be UTF-8");
+                buf.clear();
+                buf.push_str(&ctx);
+                out.push(hex(&blake3::derive_key(&buf, &material)));
+                let mut h = blake3::Hasher::new_derive_key(&buf);
+                h.update(&material);
+                out.push(hex(h.finalize().as_bytes()));
+            }
+        }
+        // tks <key bytes, any length> <message>: <Hasher as KeyInit>::new_from_slice(key) -> "errlen" or
+        // "ok <Mac::finalize of the message>" (the trait API must accept exactly the 32-byte keys)
+        "tks" => {
+            use blake3::traits::digest::{KeyInit, Mac};
+            let key = bytes(f[1]);
+            match <blake3::Hasher as KeyInit>::new_from_slice(&key) {
+                Err(_) => out.push("errlen".into()),
+                Ok(mut h) => {
+                    Mac::update(&mut h, &bytes(f[2]));
+                    out.push("ok".into());
+                    out.push(hex(&Mac::finalize(h).into_bytes()));
+                }
+            }
+        }
         _ => unreachable!(),
     }
 }
@@ -591,7 +649,7 @@ fn run_case(line: &str) -> String {
                 }
             }
         }
-        "lsl" | "msl" => helper_case(&toks, &mut out),
+        "lsl" | "msl" | "tks" | "dkre" => helper_case(&toks, &mut out),
         "kcip" | "kxof" | "khm" | "khmg" | "kxm" => kernel::kernel_case(&toks, &mut out),
         "THR" => out.push(kernel::thr_case(&toks, run_case)),
         "ref" => {
